@@ -65,7 +65,8 @@ def make_cases(ctx):
     negs = ["hb_not_allowed", "ku_unknown_type", "ku_in_tls12",
             "cr_without_pha_ext", "cert_unknown_context", "ccs_post_13",
             "nst_to_server", "hb_declared_longer", "hb_short_padding",
-            "finished_post_handshake", "cr_to_server"]
+            "finished_post_handshake", "cr_to_server",
+            "pha_bad_finished", "pha_bad_signature", "pha_no_verify"]
     for k in negs:
         for r in range(ctx.pick(2, 10)):
             yield "neg-%s-%d" % (k, r), dict(neg=k, r=r)
@@ -351,8 +352,77 @@ def run_history(ctx, cid, P):
         ctx.sample(W)
 
 
+def run_pha_negative(ctx, cid, P):
+    """post-handshake authentication whose proof is incomplete: the chain
+    must not be recorded and the server answers with a fatal alert"""
+    k = P["neg"]
+    rng = ctx.rng
+    p, tc, ts = establish(rng, (3, 4), False, rng.choice(["rsa", "ecdsa"]))
+    if tc.status != "done" or ts.status != "done":
+        ctx.inconc("control failed in %s" % cid)
+        return
+    if p.s.session.clientCertChain is not None:
+        ctx.inconc("client already authenticated in %s" % cid)
+        return
+    st = {}
+
+    def rw(i, t, msg, raw):
+        if k == "pha_bad_finished" and t == 20:
+            st["hit"] = True
+            b = bytearray(raw)
+            b[4 + rng.randrange(len(b) - 4)] ^= 1 << rng.randrange(8)
+            return [adv.Raw(22, bytes(b))]
+        if k == "pha_bad_signature" and t == 15:
+            st["hit"] = True
+            b = bytearray(raw)
+            b[8 + rng.randrange(len(b) - 8)] ^= 1 << rng.randrange(8)
+            return [adv.Raw(22, bytes(b))]
+        if k == "pha_no_verify" and t == 15:
+            st["hit"] = True
+            return []
+        return None
+    adv.Deviant(p.c, rw)
+
+    def sprog():
+        for r in p.s.request_post_handshake_auth():
+            yield r
+        r = yield from drive.aread(p.s, None, 0)
+        return r
+
+    def cprog():
+        r = yield from drive.aread(p.c, None, 0)
+        return r
+    t2c, t2s = p.run(cprog(), sprog())
+    ctx.ev()
+    ctx.count("negatives")
+    key = {"neg": k, "victim": "server", "ver": "TLS1.3"}
+    W = {"case": cid, "client": str(outcome(t2c)), "server": str(outcome(t2s))}
+    if not st.get("hit"):
+        ctx.count("pha_negative_not_reached")
+        return
+    chain = p.s.session.clientCertChain if p.s.session else None
+    if chain is not None:
+        ctx.violation(dict(key, clause="pha_chain_recorded_without_proof"), W,
+                      "session.clientCertChain set although %s" % k)
+    if t2s.status == "exc" and isinstance(t2s.exc, E.TLSLocalAlert) and \
+            t2s.exc.level == 2:
+        ctx.count("neg_alerted")
+        ctx.cell("neg", "%s|server|alert%d" % (k, t2s.exc.description))
+    elif t2s.status == "exc" and mon.classify_exc(t2s.exc).startswith(
+            ("undocumented", "tls:")):
+        ctx.violation(dict(key, clause="wrong_exception",
+                           exc=type(t2s.exc).__name__, frame=t2s.frame()),
+                      W, repr(t2s.exc))
+    else:
+        ctx.violation(dict(key, clause="bad_control_message_tolerated",
+                           got=str(outcome(t2s))), W,
+                      "%s: server did not answer with a fatal alert" % k)
+
+
 def run_negative(ctx, cid, P):
     k = P["neg"]
+    if k.startswith("pha_"):
+        return run_pha_negative(ctx, cid, P)
     rng = ctx.rng
     ver = (3, 4)
     ckey = None
